@@ -6,6 +6,7 @@ import Driver.Family
 import PgVerif.Model.Heap
 import PgVerif.Spec.Heap
 import PgVerif.Gen.Heap
+import PgVerif.Gen.Mutate
 namespace Driver.Fam
 open PgVerif Driver
 
@@ -89,5 +90,51 @@ def infomaskEval (args : List String) : String :=
   | _ => "bad-args"
 
 def infomask : Family := { name := "infomask", gen := infomaskGen, eval := infomaskEval, fixed := 256 }
+
+/-! ### malformed heap files (C10): the scan must not panic, whatever the bytes -/
+
+def okOrPanic {α} : M α → String
+  | .ok _ => "ok"
+  | .error e => faultStr e
+
+/-- args: visibleOnly, file -/
+def heapmutEval (args : List String) : String :=
+  match args with
+  | [vis, file] => okOrPanic (Model.readTuples (unhex file) (vis == "1"))
+  | _ => "bad-args"
+
+/-- crafted headers that attack every guard of ParsePage / ParseHeapTuple -/
+def craftedPages : List Bytes :=
+  let t := Gen.plainTuple 0x0900 1 [1, 2, 3, 4]
+  let p := Spec.encPage (Gen.mkPage [([], t), ([], t)] [.normal 0, .normal 1] 16)
+  let set (off w v : Nat) (b : Bytes) := Gen.setAt b off (le w v)
+  [ set 18 2 0x8004 (set 14 2 30000 (set 12 2 20000 p)),     -- 32 KiB page size claimed, pointer array beyond the buffer
+    set 18 2 0x4004 (set 14 2 16384 (set 12 2 16384 p)),
+    set 18 2 0x4004 (set 14 2 8192 (set 12 2 8190 p)),
+    set 12 2 8192 (set 14 2 8192 p), set 12 2 8191 (set 14 2 8192 p), set 12 2 8189 (set 14 2 8192 p),
+    set 24 4 (8191 + 2^15 + 2^17 * 1) p,                     -- 1-byte tuple at the last byte
+    set 24 4 (8169 + 2^15 + 2^17 * 23) p,                    -- bare 23-byte tuple at the very end
+    set 24 4 (8170 + 2^15 + 2^17 * 23) p,
+    set 24 4 (32767 + 2^15 + 2^17 * 32767) p,
+    p.take 8191, p ++ p.take 100 ]
+
+def heapmutGen (seed idx size : Nat) : Case :=
+  let file : Bytes :=
+    if idx < craftedPages.length then craftedPages.getD idx []
+    else
+      (do let (bs, tail) ← Gen.genHeap size
+          let f := Spec.encHeap bs tail
+          let np := f.length / 8192
+          let pg ← Gen.below (max np 1)
+          let base := 8192 * pg
+          -- header fields of one page, its first pointers, and tuple header bytes near the end of the page
+          let fields := [(base + 12, 2), (base + 14, 2), (base + 16, 2), (base + 18, 2), (base + 24, 4), (base + 28, 4),
+                         (base + 32, 4), (base + 8192 - 6, 1), (base + 8192 - 10, 2), (base + 8192 - 30, 1)]
+          Gen.mutate fields (1 + size) f).run' (Prng.ofSeed seed idx)
+  let vis := idx % 2 == 1
+  let m := okOrPanic (Model.readTuples file vis)
+  { tags := [if m == "ok" then "model=ok" else "model=fault", "nt"], model := m, spec := "ok", args := [b2s vis, hexRle file] }
+
+def heapmut : Family := { name := "heapmut", gen := heapmutGen, eval := heapmutEval, fixed := craftedPages.length }
 
 end Driver.Fam
